@@ -256,6 +256,9 @@ func (d *Datastore) Sync(ctx context.Context) {
 
 	var err error
 	var pruneID string
+	// notifications are converted concurrently but written to the cache in the order they were received:
+	// every writer waits for the one before it (prevWritten is closed when that one is done)
+	var prevWritten chan struct{}
 MAIN:
 	for {
 		select {
@@ -311,7 +314,9 @@ MAIN:
 				continue
 			}
 			log.Debugf("%s: sync acquired semaphore", d.Name())
-			go d.storeSyncMsg(ctx, syncup, sem)
+			written := make(chan struct{})
+			go d.storeSyncMsg(ctx, syncup, sem, prevWritten, written)
+			prevWritten = written
 		}
 	}
 }
@@ -328,8 +333,9 @@ func isState(r *sdcpb.GetSchemaResponse) bool {
 	return false
 }
 
-func (d *Datastore) storeSyncMsg(ctx context.Context, syncup *target.SyncUpdate, sem *semaphore.Weighted) {
+func (d *Datastore) storeSyncMsg(ctx context.Context, syncup *target.SyncUpdate, sem *semaphore.Weighted, prevWritten <-chan struct{}, written chan<- struct{}) {
 	defer sem.Release(1)
+	defer close(written)
 
 	converter := utils.NewConverter(d.schemaClient)
 
@@ -352,6 +358,15 @@ func (d *Datastore) storeSyncMsg(ctx context.Context, syncup *target.SyncUpdate,
 
 	for _, x := range cNotification.GetUpdate() {
 		fmt.Printf("%s\n", x.String())
+	}
+
+	// an earlier notification may touch the same paths: its writes come first
+	if prevWritten != nil {
+		select {
+		case <-prevWritten:
+		case <-ctx.Done():
+			return
+		}
 	}
 
 	for _, del := range cNotification.GetDelete() {
